@@ -3,7 +3,9 @@
 committed, /tmp/mut is not needed afterwards).  meta.json: property, title, what the change needs to manifest (taken
 from the author's notes), what was run to confirm it, and - filled by tools/sweep_seeded.py - which checks report it."""
 import os, re, json, shutil, glob, sys
-SRC = '/tmp/mut'
+SRC = os.environ.get('SEED_SRC', '/tmp/mut')
+OFFSET = int(os.environ.get('SEED_OFFSET', '0'))
+ROUND = int(os.environ.get('SEED_ROUND', '1'))
 DST = os.path.join(os.path.dirname(os.path.dirname(os.path.abspath(__file__))), 'seeded')
 
 def sections(readme):
@@ -41,7 +43,7 @@ def main():
                 patch = os.path.join(out, 'patch%d.diff' % k)
             if not os.path.exists(patch):
                 continue
-            sid = '%s-%d' % (pid, k)
+            sid = '%s-%d' % (pid, k + OFFSET)
             dst = os.path.join(DST, sid)
             os.makedirs(os.path.join(dst, 'demo'), exist_ok=True)
             shutil.copy(patch, os.path.join(dst, 'patch.diff'))
@@ -57,18 +59,18 @@ def main():
             meta_path = os.path.join(dst, 'meta.json')
             old = json.load(open(meta_path)) if os.path.exists(meta_path) else {}
             meta = {
-                'id': sid, 'property': pid, 'title': title,
+                'id': sid, 'property': pid, 'round': ROUND, 'title': title,
                 'files_touched': sorted(set(re.findall(r'^\+\+\+ b/(\S+)', open(patch).read(), re.M))),
                 'needs_to_manifest': needs(text),
                 'rebased_after_fix_commits': rebased,
                 'demonstration': {'files': [os.path.basename(f) for f in demos],
                                   'how': 'copy into %s/tests/ of a scratch worktree; cargo test -p %s %s--offline --test <name>' % (demo_crate, demo_crate, '--features async ' if demo_crate == 'mpd_protocol' else '')},
                 'confirmed_by_me': {
-                    'what_i_ran': 'tools/confirm_mutants.sh in a scratch worktree of /repo: git apply; cargo test --workspace --offline (unedited suite); demo with the patch; demo without the patch',
+                    'what_i_ran': 'tools/confirm_change.sh (round 1: tools/confirm_mutants.sh) in a scratch worktree of /repo with its own target directory: git apply; cargo test --workspace --offline (unedited suite); demo with the patch; demo without the patch',
                     'patch_applies': 'APPLY=ok' in conf, 'existing_suite_passes_with_patch': 'SUITE_WITH_PATCH=pass' in conf,
                     'demo_fails_with_patch': bool(re.search(r'DEMO_WITH_PATCH\([^)]*\)=fail', conf)),
                     'demo_passes_without_patch': bool(re.search(r'DEMO_WITHOUT_PATCH\([^)]*\)=pass', conf)) and not re.search(r'DEMO_WITHOUT_PATCH\([^)]*\)=fail', conf),
-                    'log': conf.strip().splitlines()},
+                    'log': [l for l in conf.strip().splitlines() if ' exit=' not in l]},
                 'detection': old.get('detection', {}),
             }
             json.dump(meta, open(meta_path, 'w'), indent=1)
